@@ -58,3 +58,11 @@ register("C05", "exploration",
          "Every NonBondEngine.add_positions call made during gen_coords is intercepted and judged against the engine state at that moment with an independent minimum-image model: inside the box, one step (step factor x mean size) from an already positioned graph neighbour or on a start-grid point, nothing within 0.1 nm, brute-force soft-sphere force from non-neighbours within the cut-off not above the limit.",
          "sizes taken from the captured Topology.volumes; boxes >= 3 nm; time-outs inconclusive",
          "Hypothesis-generated inputs + interposed history invariant with reference force model", "DESIGN.md 4/C05")
+register("C06", "exploration",
+         "From the topology captured after backmapping every backmapped residue of generated systems (user and generated templates, factors 0.2-1.0, full and backmap-only runs) is tested: centre of geometry equals the residue position, pairwise distances equal factor x template distances, and a Kabsch fit finds a proper rotation mapping each atom name's template vector onto that atom (residual <= 1e-6). rotate_xyz is tested for orthogonality and determinant +1.",
+         "templates read from the captured MetaMolecule.templates; tolerances 1e-6 / 1e-8 nm",
+         "Hypothesis-generated inputs + geometric invariant oracle (Kabsch)", "DESIGN.md 4/C06")
+register("C07", "exploration",
+         "Generated build files (sphere/cylinder/rectangle in|out, rw_restriction cones, distance_restraints, persistence_length, -cycles rings) on generated systems; residue positions captured after BuildSystem are tested with independent predicates: geometry per selected generated residue, cone on the minimum-image step from the growth predecessor, restrained pair inside [d-tol, d+tol+average pair size], ring closure on the unused ring edge, sampled end-to-end distances inside [one step, contour length].",
+         "looser of tree/path average accepted as 'average pair size'; satisfiable regions by construction; time-outs (15 s) inconclusive",
+         "Hypothesis-generated inputs + reference predicates", "DESIGN.md 4/C07")
